@@ -165,6 +165,7 @@ func runC12Conc(c c12Conc) error {
 	if err != nil {
 		return err
 	}
+	defer w.Release()
 	var written atomic.Int64
 	w.Conn.AfterWrite = func(b []byte, err error) {
 		if err != nil || len(b) < 20 {
